@@ -111,6 +111,14 @@ pub fn dist_with(ty: usize, slot: usize, v: f64) -> Option<Dist> {
     };
     Some(Dist { dist: d, start, max })
 }
+/// third slot of a triple: only start (3) and max (4) are patched onto an already built pair
+pub fn dist_with_on(mut d: Dist, s3: usize, z: f64) -> Option<Dist> {
+    match s3 {
+        3 => { d.start = z; Some(d) }
+        4 => { d.max = z; Some(d) }
+        _ => None,
+    }
+}
 pub fn dist_with2(ty: usize, s1: usize, v1: f64, s2: usize, v2: f64) -> Option<Dist> {
     // two slots: build with s1 then patch s2 by rebuilding through the same table
     let a = dist_with(ty, s1, v1)?;
@@ -396,7 +404,8 @@ pub fn candidates(q: bool) -> Vec<Cand> {
                 }
             }
         }
-        if !q {
+        // all corner pairs (both tiers)
+        {
             for s1 in 0..5 {
                 for s2 in (s1 + 1)..5 {
                     for x in &cs {
@@ -410,8 +419,8 @@ pub fn candidates(q: bool) -> Vec<Cand> {
             }
         }
     }
-    // pairs of parameter slots both set to an extreme (quick tier too: e.g. both bounds the same infinity)
-    if q {
+    // pairs of parameter slots both set to an extreme (e.g. both bounds the same infinity); thorough: triples as well
+    {
         let ext = [f64::NAN, f64::INFINITY, f64::NEG_INFINITY, 0.0, -0.0, f64::MAX, -f64::MAX, f64::from_bits(1)];
         for ty in 0..11 {
             for s1 in 0..5 {
@@ -420,6 +429,28 @@ pub fn candidates(q: bool) -> Vec<Cand> {
                         for y in &ext {
                             if let Some(d) = dist_with2(ty, s1, *x, s2, *y) {
                                 v.push(Cand { label: format!("dist family {ty} slots ({s1},{s2}) = ({x:?},{y:?})"), m: literal_with_dist((s1 + s2 + ty) % NPOS, d) });
+                            }
+                        }
+                    }
+                }
+            }
+        }
+    }
+    if !q {
+        let ext = [f64::NAN, f64::INFINITY, f64::NEG_INFINITY, 0.0, -0.0, f64::MAX, -f64::MAX, f64::from_bits(1), 1.0, -1.0];
+        for ty in 0..11 {
+            for s1 in 0..5 {
+                for s2 in (s1 + 1)..5 {
+                    for s3 in (s2 + 1)..5 {
+                        for x in &ext {
+                            for y in &ext {
+                                for z in &ext {
+                                    if let Some(d) = dist_with2(ty, s1, *x, s2, *y) {
+                                        if let Some(d) = dist_with_on(d, s3, *z) {
+                                            v.push(Cand { label: format!("dist family {ty} slots ({s1},{s2},{s3}) = ({x:?},{y:?},{z:?})"), m: literal_with_dist((s1 + s2 + s3 + ty) % NPOS, d) });
+                                        }
+                                    }
+                                }
                             }
                         }
                     }
@@ -439,7 +470,7 @@ pub fn candidates(q: bool) -> Vec<Cand> {
         v.push(Cand { label: format!("single transition probability {p:?}"), m: literal_with_trans(vec![Trans(1, *p)], 2) });
         for p2 in &f32c {
             v.push(Cand { label: format!("two transition probabilities ({p:?},{p2:?})"), m: literal_with_trans(vec![Trans(1, *p), Trans(0, *p2)], 2) });
-            if !q {
+            {
                 for p3 in &f32c {
                     v.push(Cand { label: format!("three transition probabilities ({p:?},{p2:?},{p3:?})"), m: literal_with_trans(vec![Trans(1, *p), Trans(0, *p2), Trans(STATE_END, *p3)], 2) });
                 }
@@ -564,7 +595,7 @@ pub fn worker(ctx: &WorkerCtx) -> WorkerOut {
     let samples: Vec<Value> = cands.iter().step_by((cands.len() / 4).max(1)).take(4).map(|c| json!({"candidate": c.label})).collect();
     let coverage = json!({
         "evaluations": cands.len(), "distinct_nontrivial": acc.min(rej) * 2,
-        "rule": "candidates = base machine literals with one numeric slot (machine fractions, transition probabilities, every distribution parameter / start / max of all 11 families in 7 positions) set to each value of a 22-value corner menu, plus structural faults (no states, targets n, n+1, STATE_MAX, END, SIGNAL, usize::MAX, duplicates, per-event sums around 1); pairs of slots within one distribution (quick: both at one of 8 extremes; thorough: all corner pairs) and pairs of fractions; Framework::new with every pair of corner values as its own fractions. Each candidate gets four judgements (Machine::new, validate, Framework::new, from_str(serialize)) which must agree; accepted candidates must satisfy an independent well-formedness predicate, build frameworks for fractions in [0,1] and run ten calls. distinct_nontrivial = 2 x min(accepted, rejected) (both outcomes exercised)",
+        "rule": "candidates = base machine literals with one numeric slot (machine fractions, transition probabilities, every distribution parameter / start / max of all 11 families in 7 positions) set to each value of a 22-value corner menu, plus structural faults (no states, targets n, n+1, STATE_MAX, END, SIGNAL, usize::MAX, duplicates, per-event sums around 1); pairs of slots within one distribution (all corner pairs in both tiers; thorough adds triples (two slots + start or max) over a 10-value extreme menu), pairs and triples of transition probabilities over a 16-value f32 corner menu, and pairs of fractions; Framework::new with every pair of corner values as its own fractions. Each candidate gets four judgements (Machine::new, validate, Framework::new, from_str(serialize)) which must agree; accepted candidates must satisfy an independent well-formedness predicate, build frameworks for fractions in [0,1] and run ten calls. distinct_nontrivial = 2 x min(accepted, rejected) (both outcomes exercised)",
         "samples": samples, "exhaustive": ctx.only_unit.is_none(),
         "accepted": acc, "rejected": rej, "failing_candidates": fails.len(), "judgements": cands.len() * 4, "framework_fraction_judgements": fw_judgements,
     });
